@@ -63,7 +63,9 @@ def _resolve(self, x, y):
 
 def _swap(self, x, y, all_levels=None):
     rec = _Rec.events
-    if rec is None:
+    if rec is None or self._last_len is not None:
+        # (with reordering requests enabled, swap first disables them and calls
+        # itself again: the orders are recorded in that inner call)
         return _orig_swap(self, x, y, all_levels)
     ac = _resolve(self, x, y)
     if all_levels is not None:
